@@ -42,6 +42,21 @@ type position struct {
 	back func(m *ir.Module, it item) (b string, isID bool, ok bool)
 }
 
+// hidden reports whether LLVM's reading of the bytes at this position cannot be observed through
+// llvm-dis: it crashes when it prints a metadata name with a byte >= 0x80 (isalpha on a negative
+// char).  Only llvm-as's acceptance is used for such records.
+func (p *position) hidden(b string) bool {
+	if p.name != "mdname" {
+		return false
+	}
+	for i := 0; i < len(b); i++ {
+		if b[i] >= 0x80 {
+			return true
+		}
+	}
+	return false
+}
+
 func i32(n int) *constant.Int { return constant.NewInt(types.I32, int64(n)) }
 
 func isInt(c interface{}, n int) bool {
